@@ -15,6 +15,26 @@ CHECKS = [
      "text": "Every ordered pair and triple of a dyadic lattice (all scales of the ladder in thorough) x the finite cone family is run through the real dominates()/is_inside() and compared with exact rational arithmetic; angle sweeps pin the bundled cones' geometry. Exhaustive within the lattice; says nothing about vectors/cones outside it.",
      "design_ref": "3/C12", "note": "Fraction(float) arithmetic defines the facet inequalities; near-boundary pairs for non-integer W are skipped and counted.",
      "technique": "bounded-exhaustive lattice enumeration vs exact rational oracle"},
+    {"id": "C13", "engine": "lattice", "level": "exploration",
+     "text": "Every ordered sequence (with repetition) of <=4 (thorough 5) points of a 3x3 lattice and <=3 (4) of a 2x2x2 lattice x the cone family, plus an exhaustive pattern grammar of chains/duplicates up to 12 points, is run through the real get_pareto_set / get_pareto_set_naive and compared with a brute-force exact dominance matrix. Exhaustive within those bounds.",
+     "design_ref": "3/C13", "note": "'hundreds of random points' is replaced by the exhaustive small-lattice space; larger unstructured inputs are not covered.",
+     "technique": "bounded-exhaustive sequence enumeration vs brute-force exact dominance matrix"},
+    {"id": "C09", "engine": "lattice", "level": "exploration",
+     "text": "All ordered pairs of lattice rectangles (shape alphabet x every lattice rectangle; thorough: all x all) and alphabet ellipsoids, at every scale of the ladder (1e-4..1e2), with anisotropic stretches, x cone family (2x2, K>m, integer, 3-D) x scalar/vector slacks go through the real is_dominated and an independent closed-form support-function oracle; integer-W/dyadic cases are decided exactly on the boundary.",
+     "design_ref": "3/C09", "note": "cases within tau=1e-6*max(1,|data|) of the boundary are not compared unless exactly representable.",
+     "technique": "bounded-exhaustive lattice enumeration vs closed-form support-function oracle"},
+    {"id": "C10", "engine": "lattice", "level": "exploration",
+     "text": "Same pair space as C09 through the real is_covered (cvxpy LP / SOCP); oracle = exhaustive vertex enumeration of the LP for rectangles and certificate-checked minimax bounds (explicit witness point or separating functional) for ellipsoids.",
+     "design_ref": "3/C10", "note": "cases whose certified value lies within tau of 0 are not compared (counted).",
+     "technique": "bounded-exhaustive lattice enumeration vs certificate-checked oracle"},
+    {"id": "C11", "engine": "lattice", "level": "exploration",
+     "text": "All ordered pairs of lattice rectangles including degenerate edges x sub-step shifts x stretches x scales x cone family through the real check_dominates; per-vertex exact LP oracle; soundness for every cone, completeness for 2x2 cones.",
+     "design_ref": "3/C11", "note": "margin tau as in C09; the derived clause on the pessimistic set is checked inside the C02 executions.",
+     "technique": "bounded-exhaustive lattice enumeration vs per-vertex LP vertex-enumeration oracle"},
+    {"id": "C17", "engine": "lattice", "level": "exploration",
+     "text": "Finite cone family (theta sweep over (0,180), ice-cream K x half-angle grid, named 3-D cones, orthants, all bounded-entry integer-row cones in 2-4 D) through the real OrderingCone.alpha, VOGP/VOGP_AD.compute_u_star and ConeTheta2D.beta; oracle = exhaustive active-set (KKT) enumeration with matching primal and dual certificates.",
+     "design_ref": "3/C17", "note": "tolerances alpha 1e-6, u* 1e-5; cones outside the family are not covered.",
+     "technique": "exhaustive cone-family enumeration vs KKT active-set enumeration with primal/dual certificates"},
 ]
 claimed = {c["id"] for c in CHECKS}
 NOT_APPLICABLE = [{"property_id": p, "reason": "check not built yet (work in progress; planned in DESIGN.md section 3)"} for p in ALL if p not in claimed]
